@@ -37,6 +37,16 @@ func quietLogs() {
 	etcdRaft.SetLogger(&etcdRaft.DefaultLogger{Logger: stdlog.New(io.Discard, "", 0)})
 }
 
+// sharedBadger: stand-alone partitions whose raft group is never loaded do not touch their store; thousands of cases
+// share one instead of opening one each (address space)
+var sharedDB *badger.DB
+var sharedDBOnce sync.Once
+
+func sharedBadger() *badger.DB {
+	sharedDBOnce.Do(func() { sharedDB = memBadger() })
+	return sharedDB
+}
+
 func memBadger() *badger.DB {
 	// small tables: the harness opens many in-memory stores and never closes them (goroutines of abandoned
 	// "crashed" incarnations and the groups' 10 s snapshot tickers may still touch a store)
